@@ -8,13 +8,13 @@ for S in seeded/*/; do
   WT=/tmp/seedsuite_$$
   git -C /repo worktree add --detach $WT HEAD -q || continue
   ( cd $WT && git apply /verif/$S/patch.diff || { echo "FINAL: patch does not apply to current HEAD" > /verif/$S/suite_result.txt; exit; }
-    PYTHONPATH=$WT timeout 3000 /venv/bin/python -m pytest -q -p no:cacheprovider -n 8 -k "not spark" -W ignore cubed/tests --junitxml=/tmp/seedsuite.xml > /tmp/seedsuite.log 2>&1
+    PYTHONPATH=$WT timeout 3000 /venv/bin/python -m pytest -q -p no:cacheprovider -n 6 -k "not spark" -W ignore cubed/tests --junitxml=/tmp/seedsuite.xml > /tmp/seedsuite.log 2>&1
     tail -1 /tmp/seedsuite.log > /verif/$S/suite_result.txt
-    FAILED=$(grep -E "^(FAILED|ERROR)" /tmp/seedsuite.log | awk '{print $2}' | sort -u)
+    FAILED=$(grep -E "^(FAILED|ERROR) cubed/" /tmp/seedsuite.log | awk '{print $2}' | sort -u)
     if [ -n "$FAILED" ]; then
       PYTHONPATH=$WT timeout 3000 /venv/bin/python -m pytest -q -p no:cacheprovider -W ignore $FAILED > /tmp/seedsuite2.log 2>&1
       echo "serial re-run of the $(echo "$FAILED" | wc -l) tests that failed under parallel load: $(tail -1 /tmp/seedsuite2.log)" >> /verif/$S/suite_result.txt
-      if grep -qE "^(FAILED|ERROR)" /tmp/seedsuite2.log; then echo "FINAL: some tests still fail: $(grep -E '^(FAILED|ERROR)' /tmp/seedsuite2.log | head -3)" >> /verif/$S/suite_result.txt; else echo "FINAL: suite passes with the patch (all failures of the parallel run pass when re-run serially)" >> /verif/$S/suite_result.txt; fi
+      if grep -qE "^(FAILED|ERROR) cubed/" /tmp/seedsuite2.log; then echo "FINAL: some tests still fail: $(grep -E '^(FAILED|ERROR) cubed/' /tmp/seedsuite2.log | head -3)" >> /verif/$S/suite_result.txt; else echo "FINAL: suite passes with the patch (all failures of the parallel run pass when re-run serially)" >> /verif/$S/suite_result.txt; fi
     else
       echo "FINAL: suite passes with the patch" >> /verif/$S/suite_result.txt
     fi )
